@@ -1,10 +1,10 @@
 package vh
 
 import (
-	"go.amzn.com/lambda/metering"
 	"bytes"
 	"errors"
 	"fmt"
+	"go.amzn.com/lambda/metering"
 	"net"
 	"net/http"
 	"os"
@@ -23,22 +23,22 @@ import (
 
 // Config describes one emulator instance.
 type Config struct {
-	TimeoutMs    int64    // function timeout
-	Extensions   []string // file names created under <root>/opt/extensions
-	ExtDirs      []string // directory names created there too (must not be launched)
-	Snapshot     bool     // init caching (snapstart) mode
-	Handler      string
-	BuilderHandler string
-	CustomerEnv  map[string]string
-	FunctionName string
-	FunctionVersion string
-	AccountID    string
+	TimeoutMs                     int64    // function timeout
+	Extensions                    []string // file names created under <root>/opt/extensions
+	ExtDirs                       []string // directory names created there too (must not be launched)
+	Snapshot                      bool     // init caching (snapstart) mode
+	Handler                       string
+	BuilderHandler                string
+	CustomerEnv                   map[string]string
+	FunctionName                  string
+	FunctionVersion               string
+	AccountID                     string
 	AwsKey, AwsSecret, AwsSession string
-	CredsExpiry  time.Time // expiry of the credentials handed over at init
-	SlowEventsMs map[string]int // slow telemetry sink: per lifecycle event (InvokeStart, InitStart) the time the Send call takes
-	BootstrapCmd []string
-	BootstrapErr error // Cmd() fails with this
-	Port         int   // 0 = pick from the allocator
+	CredsExpiry                   time.Time      // expiry of the credentials handed over at init
+	SlowEventsMs                  map[string]int // slow telemetry sink: per lifecycle event (InvokeStart, InitStart) the time the Send call takes
+	BootstrapCmd                  []string
+	BootstrapErr                  error // Cmd() fails with this
+	Port                          int   // 0 = pick from the allocator
 }
 
 // Emu is one assembled emulator with its scripted environment.
@@ -126,7 +126,9 @@ func (b *fakeBootstrap) CachedFatalError(err error) (fatalerror.ErrorType, strin
 }
 
 // NewBootstrap returns an interop.Bootstrap for the given command (used by the front-end engine).
-func NewBootstrap(cmd []string, cwd string) interop.Bootstrap { return &fakeBootstrap{cmd: cmd, cwd: cwd} }
+func NewBootstrap(cmd []string, cwd string) interop.Bootstrap {
+	return &fakeBootstrap{cmd: cmd, cwd: cwd}
+}
 
 var tmpBase = func() string {
 	d := os.Getenv("VERIF_TMP")
@@ -341,14 +343,14 @@ func Settle(a *Async, cond func() bool, timeout time.Duration) (returned, parked
 
 // RecWriter is the http.ResponseWriter handed to Invoke; it records every use.
 type RecWriter struct {
-	mu      sync.Mutex
-	hdr     http.Header
-	Writes  [][]byte
-	Status  int
-	closed  bool // set when Invoke returned
-	Late    int  // writes after Invoke returned
-	log     *Log
-	src     string
+	mu     sync.Mutex
+	hdr    http.Header
+	Writes [][]byte
+	Status int
+	closed bool // set when Invoke returned
+	Late   int  // writes after Invoke returned
+	log    *Log
+	src    string
 }
 
 func (w *RecWriter) Header() http.Header {
